@@ -7,3 +7,5 @@ import ClipperVerif.Props.C13Spec
 import ClipperVerif.Props.C01
 import ClipperVerif.Props.C05
 import ClipperVerif.Props.C13
+import ClipperVerif.Props.C11
+import ClipperVerif.Props.C18Geom
